@@ -153,7 +153,22 @@ def parser_wiring(rep, prog, rule):
         it = Interp(prog, Policy())
         try:
             pre, build = Tok("L", "pre", (), dom="pre"), Tok("L", "build", (), dom="build")
-            a = (Tok("O", "v"), Tok("O", "sp"), (tok(0), tok(1), tok(2)), (pre, build))
+            # build the argument from the closure's parameter type: the (u64, u64, u64) slot carries the core, the
+            # (Vec<Identifier>, Vec<Identifier>) slot the extras, every other slot is an opaque parser result
+            body = prog.body(key)
+            pty = prog.types[body["locals"][2]]
+            if pty.get("k") != "tuple":
+                raise Inconclusive("version closure does not take a tuple")
+            elems = []
+            for i, tix in enumerate(pty["tys"]):
+                ts = prog.types[tix]["s"]
+                if ts == "(u64, u64, u64)":
+                    elems.append((tok(0), tok(1), tok(2)))
+                elif ts.startswith("(std::vec::Vec<Identifier>"):
+                    elems.append((pre, build))
+                else:
+                    elems.append(Tok("O", "slot%d" % i))
+            a = tuple(elems)
             r = it.call_closure(Clo(key, ()), [a])
             good = isinstance(r, Adt) and r.name == "Version"
             if good:
